@@ -3,7 +3,6 @@
 jobs=${1:-4}
 cd /verif
 mkdir -p /tmp/wt/matrix
-ls seeded | grep -E '^C[0-9]+_[mh][0-9]+$' | xargs -P $jobs -I{} bash -c 'sid={}; chk=${sid%%_*}; out=$(tools/try_seeded.sh $sid $chk quick 2>&1); rc=$?; keys=$(echo "$out" | grep -E "^  key=" | sed -E "s/^  key=([^ ]+).*/\1/" | sort -u | head -5 | tr "\n" "," ); echo -e "$sid\t$chk\t$rc\t$keys" > /tmp/wt/matrix/$sid.tsv'
+ls seeded | grep -E '^C[0-9]+_[mh][0-9]+$' | while read sid; do [ -s /tmp/wt/matrix/$sid.tsv ] || echo $sid; done | xargs -P $jobs -I{} bash -c 'sid={}; chk=${sid%%_*}; out=$(tools/try_seeded.sh $sid $chk quick 2>&1); rc=$?; keys=$(echo "$out" | grep -E "^  key=" | sed -E "s/^  key=([^ ]+).*/\1/" | sort -u | head -5 | tr "\n" "," ); echo -e "$sid\t$chk\t$rc\t$keys" > /tmp/wt/matrix/$sid.tsv'
 cat /tmp/wt/matrix/*.tsv | sort > seeded/MATRIX.tsv
-rm -rf /tmp/wt/matrix
 awk -F'\t' '{n[$3]++} END{for(k in n) print "exit="k, n[k]}' seeded/MATRIX.tsv
